@@ -1,4 +1,4 @@
-//! C09 — range iteration (konst::iter::into_iter! / for_each! / collect_const! over
+//! C09 — range iteration (konst::iter::into_iter! / for_each! (also in const items) over
 //! `a..b`, `a..=b`, `a..`) vs the std range iterators, for the 13 `Step` types.
 //!
 //! families (see coq/Glue/C09.v):
@@ -246,15 +246,25 @@ where
 fn k_each<T: V>(k: K, a: T, b: T, back: bool, via: u8) -> Outs<T> {
     use konst::iter::for_each;
     let mut v: Vec<Option<T>> = Vec::new();
+    // a broken iterator must not run away: the callers only pass ranges of <= 300 items
+    macro_rules! body {
+        ($x:ident) => {{
+            if v.len() > 320 {
+                v.push(None);
+                break;
+            }
+            v.push(Some($x));
+        }};
+    }
     let r = catch_unwind(AssertUnwindSafe(|| match (k, back, via) {
-        (K::R, false, b'E') => for_each! {x in a..b => { v.push(Some(x)); }},
-        (K::R, true, b'E') => for_each! {x in a..b, rev() => { v.push(Some(x)); }},
-        (K::R, false, _) => for_each! {x in &(a..b) => { v.push(Some(x)); }},
-        (K::R, true, _) => for_each! {x in &(a..b), rev() => { v.push(Some(x)); }},
-        (_, false, b'E') => for_each! {x in a..=b => { v.push(Some(x)); }},
-        (_, true, b'E') => for_each! {x in a..=b, rev() => { v.push(Some(x)); }},
-        (_, false, _) => for_each! {x in &(a..=b) => { v.push(Some(x)); }},
-        (_, true, _) => for_each! {x in &(a..=b), rev() => { v.push(Some(x)); }},
+        (K::R, false, b'E') => for_each! {x in a..b => { body!(x) }},
+        (K::R, true, b'E') => for_each! {x in a..b, rev() => { body!(x) }},
+        (K::R, false, _) => for_each! {x in &(a..b) => { body!(x) }},
+        (K::R, true, _) => for_each! {x in &(a..b), rev() => { body!(x) }},
+        (_, false, b'E') => for_each! {x in a..=b => { body!(x) }},
+        (_, true, b'E') => for_each! {x in a..=b, rev() => { body!(x) }},
+        (_, false, _) => for_each! {x in &(a..=b) => { body!(x) }},
+        (_, true, _) => for_each! {x in &(a..=b), rev() => { body!(x) }},
     }));
     (v, r.is_err())
 }
@@ -383,32 +393,54 @@ where
 
 // ---------------------------------------------------------------- const-context cases
 
+/// ranges iterated at compile time with for_each! (capped at 8 items, so that a broken
+/// iterator shows up as a wrong list instead of a const-eval timeout)
 mod konsts {
-    use konst::iter::collect_const;
-    pub const U8_INC_MAX: [u8; 3] = collect_const!(u8 => 253..=255);
-    pub const U8_INC_MAX_REV: [u8; 3] = collect_const!(u8 => 253..=255, rev());
-    pub const I8_MIN: [i8; 3] = collect_const!(i8 => -128..-125);
-    pub const I8_MIN_REV: [i8; 3] = collect_const!(i8 => -128..-125, rev());
-    pub const I8_INC_MIN_REV: [i8; 2] = collect_const!(i8 => -128..=-127, rev());
-    pub const U8_INVERTED: [u8; 0] = collect_const!(u8 => 5..2);
-    pub const U8_INC_INVERTED: [u8; 0] = collect_const!(u8 => 255..=0);
-    pub const CHAR_GAP: [char; 4] = collect_const!(char => '\u{D7FE}'..='\u{E001}');
-    pub const CHAR_GAP_REV: [char; 3] = collect_const!(char => '\u{D7FE}'..'\u{E001}', rev());
-    pub const CHAR_MAX: [char; 3] = collect_const!(char => '\u{10FFFD}'..='\u{10FFFF}');
-    pub const CHAR_MAX_REV: [char; 3] = collect_const!(char => '\u{10FFFD}'..='\u{10FFFF}', rev());
-    pub const CHAR_MIN_REV: [char; 2] = collect_const!(char => '\0'..='\u{1}', rev());
-    pub const U128_MAX: [u128; 3] = collect_const!(u128 => u128::MAX - 2..=u128::MAX);
-    pub const I128_MIN_REV: [i128; 3] = collect_const!(i128 => i128::MIN..=i128::MIN + 2, rev());
-    pub const USIZE_MAX: [usize; 2] = collect_const!(usize => usize::MAX - 2..usize::MAX);
-    pub const ISIZE_ZERO: [isize; 4] = collect_const!(isize => -2..=1);
-    pub const U64_FROM: [u64; 3] = collect_const!(u64 => u64::MAX - 10.., take(3));
+    macro_rules! const_each {
+        ($name:ident, $t:ty, $zero:expr, $($range:tt)*) => {
+            pub const $name: ([$t; 8], usize) = {
+                let mut out = [$zero; 8];
+                let mut n = 0usize;
+                konst::iter::for_each! {x in $($range)* => {
+                    if n == 8 {
+                        n = 9;
+                        break;
+                    }
+                    out[n] = x;
+                    n += 1;
+                }}
+                (out, n)
+            };
+        };
+    }
+    const_each! {U8_INC_MAX, u8, 0, 253u8..=255}
+    const_each! {U8_INC_MAX_REV, u8, 0, 253u8..=255, rev()}
+    const_each! {I8_MIN, i8, 0, -128i8..-125}
+    const_each! {I8_MIN_REV, i8, 0, -128i8..-125, rev()}
+    const_each! {I8_INC_MIN_REV, i8, 0, -128i8..=-127, rev()}
+    const_each! {U8_INVERTED, u8, 0, 5u8..2}
+    const_each! {U8_INC_INVERTED, u8, 0, 255u8..=0}
+    const_each! {CHAR_GAP, char, 'x', '\u{D7FE}'..='\u{E001}'}
+    const_each! {CHAR_GAP_REV, char, 'x', '\u{D7FE}'..'\u{E001}', rev()}
+    const_each! {CHAR_MAX, char, 'x', '\u{10FFFD}'..='\u{10FFFF}'}
+    const_each! {CHAR_MAX_REV, char, 'x', '\u{10FFFD}'..='\u{10FFFF}', rev()}
+    const_each! {CHAR_MIN_REV, char, 'x', '\0'..='\u{1}', rev()}
+    const_each! {U128_MAX, u128, 0, u128::MAX - 2..=u128::MAX}
+    const_each! {I128_MIN_REV, i128, 0, i128::MIN..=i128::MIN + 2, rev()}
+    const_each! {USIZE_MAX, usize, 0, usize::MAX - 2..usize::MAX}
+    const_each! {ISIZE_ZERO, isize, 0, -2isize..=1}
+    pub const U64_FROM: [u64; 3] = konst::iter::collect_const!(u64 => u64::MAX - 10.., take(3));
 }
-fn const_case<T: V>(out: &mut Out, k: K, a: T, b: T, back: bool, got: &[T])
+fn const_case<T: V>(out: &mut Out, k: K, a: T, b: T, back: bool, got: &([T; 8], usize))
 where
     Range<T>: DoubleEndedIterator<Item = T>,
     RangeInclusive<T>: DoubleEndedIterator<Item = T>,
 {
-    let imp: Outs<T> = (got.iter().map(|x| Some(*x)).collect(), false);
+    let mut v: Vec<Option<T>> = got.0[..got.1.min(8)].iter().map(|x| Some(*x)).collect();
+    if got.1 > 8 {
+        v.push(None); // ran over the cap
+    }
+    let imp: Outs<T> = (v, false);
     each_line(out, k, a, b, back, b'K', &imp, true);
 }
 fn const_cases(out: &mut Out) {
